@@ -238,12 +238,6 @@ func attrSliceEqual(a, b Attributes) bool {
 }
 
 func attrEqual(attrA, attrB Attributes) bool {
-	if attrA == nil && attrB == nil {
-		return true
-	}
-	if attrA == nil || attrB == nil {
-		return false
-	}
 	if len(attrA) != len(attrB) {
 		return false
 	}
